@@ -246,6 +246,9 @@ Eval(node, cfg, lhsvars) ==
                                            ELSE IF \E i \in DOMAIN a[1].ts : Len(a[1].ts[i]) = 0 THEN VErr("unmodelled")
                                            ELSE TCtor(<<"root", "deps">>, <<TLeaf(HatTerms(a[1].ts)), TTup(<<TSt(<<"lhs", "rhs">>, <<a[1], a[2]>>)>>)>>)
                  [] c.id = "part" -> TTup((IF a[1].t = "tup" THEN a[1].items ELSE <<a[1]>>) \o (IF a[2].t = "tup" THEN a[2].items ELSE <<a[2]>>))
+                 \* DOC: the exponent is an integer literal as written (possibly in parentheses) - an expression that merely evaluates to
+                 \* one literal term ("2 + 2", "2 * 2", "2 ** 2" all collapse to the term 2) is not an exponent
+                 [] c.id = "power" /\ node.args[2].n # "leaf" -> VErr("bad-power")
                  [] OTHER -> MergeV(c.id, a, TRUE)
 
 \* all leaves, depth first
